@@ -760,3 +760,48 @@ def check_C05(rep, tier):
     _life(rep, tier, "C05", families_for(tier), ["AConstruct", "AWrite", "ARead", "AEdit", "AEditString", "AVerify"])
     rep.assumptions += ["pairs of documents are generated by single edits and by bounded enumeration of string pairs, not all pairs",
                         "expiry differences below one second are outside C05 ('to the second')"]
+
+
+# ----------------------------------------------------------------------------- C12
+def check_C12(rep, tier):
+    rep.cov["rule"] = ("TLC enumerates every construction path of length <= 4 of KeyId.tla (from private key, raw bytes, standard "
+                       "SubjectPublicKeyInfo DER / PEM, other scheme; round trips through JSON value / JSON text / SPKI export-import) "
+                       "for every key type, and every key table over 3 keys with entries filed under their own id, another key's id, a "
+                       "foreign id or absent.  Replay runs each path on every fixture key of the type: after every step key_id() must be "
+                       "sha256 of the independently rendered description, the material unchanged, JSON round trips identities, and the "
+                       "final export byte-identical to the standard SPKI built from DER templates; each table is parsed inside a layout "
+                       "(no id may map to a key with another intrinsic id, own entries survive) and aliased entries are exercised end "
+                       "to end through in_toto_verify.  Non-trivial = path with a round trip / table with a misfiled entry.")
+    sh = Sharder("C12")
+    kinds = {}
+
+    def on_scn(s):
+        i = sh.add({k: s[k] for k in s})
+        kinds[i] = s["kind"]
+        if (s["kind"] == "path" and len(s["path"]) > 1) or (s["kind"] == "table" and any(v not in ("own", "absent") for v in s["table"].values())):
+            rep.nontrivial(i)
+        if i % 131 == 3:
+            rep.sample(s)
+
+    st = run_tlc("MC_C12", f"MC_C12_{tier}.cfg", "c12", on_scn=on_scn)
+    require_clean(st, "MC_C12")
+    rep.add_tlc(st, "MC_C12")
+    rep.vacuity(["AFromPrivate", "AFromRaw", "AFromSpki", "AFromPem", "AViaJson", "AViaSpki", "AStop"])
+    rep.cov["exhaustive"] = True
+    n = 0
+    for fam in (["ed25519"] if tier == "quick" else ["ed25519", "ecdsa", "rsa2048-256"]):
+        env = {"ITV_FAMILY": fam}
+        sh.run(env_extra=env)
+        for r in sh.results():
+            n += 1
+            if r.get("out") != "ok":
+                p = (r.get("problems") or [{}])[0]
+                sig = {"kind": "key_" + kinds[r["i"]], "problem": sorted(k for k in p.keys() if k not in ("family", "idx", "step", "id", "want"))[:2],
+                       "op": p.get("op")}
+                rep.mismatch(sig, lambda i=r["i"], r=r, env=env: {"scn": sh.scenario(i), "actual": r, "env": env})
+    rep.cov["evaluations"] = n
+    rep.cov["traces_validated_against_impl"] = n
+    sh.cleanup()
+    rep.assumptions += ["sha256 and the DER/PEM codecs are trusted; the standard SubjectPublicKeyInfo forms are built from fixed templates "
+                        "(RFC 8410 ed25519 without parameters, RFC 5480 P-256 with the curve OID, RFC 3279 RSA with NULL)",
+                        "key material limited to the committed fixture keys"]
